@@ -244,7 +244,7 @@ def component_static(cid, rng, A, params, nsolves):
     c.lines += fcol_lines(mat_cols(A))
     c.lines.append("FACTOR")
     c.steps.append(("FACTOR", [r[:] for r in A]))
-    if n <= REPR_LIMIT:
+    if n <= DUMP_LIMIT:
         c.lines.append("FDUMP")
         c.steps.append(("FDUMP", None))
     for k in range(nsolves):
@@ -264,7 +264,7 @@ def component_history(cid, rng, A, params, nupd):
     c.lines += fcol_lines(mat_cols(A))
     c.lines.append("FACTOR")
     c.steps.append(("FACTOR", [r[:] for r in A]))
-    if n <= REPR_LIMIT:
+    if n <= DUMP_LIMIT:
         c.lines.append("FDUMP")
         c.steps.append(("FDUMP", None))
     for u in range(nupd):
@@ -289,7 +289,7 @@ def component_history(cid, rng, A, params, nupd):
             v[rng.randrange(n)] = F(2)
         c.lines.append("FUPD %d %s" % (col, svec(v)))
         c.steps.append(("FUPD", (col, v)))
-        if n <= REPR_LIMIT:
+        if n <= DUMP_LIMIT:
             c.lines.append("FDUMP")
             c.steps.append(("FDUMP", None))
         for k in range(2):
@@ -300,14 +300,117 @@ def component_history(cid, rng, A, params, nupd):
     return c
 
 
-REPR_LIMIT = 16         # the representation (struct factor_work) is dumped and run through the extracted model up to this dimension
+def band_sparse_history(cid, rng, n, nupd):
+    """permuted unit-band upper triangular 0/+-1 matrix (U rows with 1-3 entries: the sparse path of ILLfactor_update for
+    n > 40 / > 60) and column replacements with 2-3 entries +-1 placed so that the eliminated row runs along the band:
+    exact cancellations to 0 inside serow_process are frequent"""
+    T = [[F(0)] * n for _ in range(n)]
+    pm = lambda: F(rng.choice([-1, 1]))
+    for i in range(n):
+        T[i][i] = pm()
+        if i + 1 < n and rng.random() < 0.85:
+            T[i][i + 1] = pm()
+        if i + 2 < n and rng.random() < 0.5:
+            T[i][i + 2] = pm()
+        if i + 3 < n and rng.random() < 0.15:
+            T[i][i + 3] = pm()
+    rp, cp = list(range(n)), list(range(n))
+    rng.shuffle(rp); rng.shuffle(cp)
+    A = [[F(0)] * n for _ in range(n)]
+    for i in range(n):
+        for j in range(n):
+            if T[i][j] != 0:
+                A[rp[i]][cp[j]] = T[i][j]
+    c = CompCase(cid)
+    c.lines.append("FNEW %d %s" % (n, " ".join(rng.choice([[], [], ["3", str(rng.choice([20, 50]))]]))))
+    c.lines += fcol_lines(mat_cols(A))
+    c.lines.append("FACTOR")
+    c.steps.append(("FACTOR", [r[:] for r in A]))
+    c.lines.append("FDUMP")
+    c.steps.append(("FDUMP", None))
+    for u in range(nupd):
+        i = rng.randrange(n - 4)
+        col = cp[i]
+        v = [F(0)] * n
+        v[rp[i]] = pm()
+        for _ in range(rng.choice([1, 1, 2])):
+            j = rng.randrange(i + 2, min(n, i + 12))
+            v[rp[j]] = pm()
+        if rng.random() < 0.15:
+            v[rp[rng.randrange(0, i + 1)]] = pm()
+        c.lines.append("FUPD %d %s" % (col, svec(v)))
+        c.steps.append(("FUPD", (col, v)))
+        c.lines.append("FDUMP")
+        c.steps.append(("FDUMP", None))
+        for k in range(2):
+            w = rand_vec(rng, n, rng.choice(["unit", "sparse", "sparse"]))
+            w = [F(int(t)) for t in w] if rng.random() < 0.7 else w
+            if all(t == 0 for t in w):
+                w[rng.randrange(n)] = F(1)
+            op = rng.choice(["FTRAN", "BTRAN"])
+            c.lines.append("%s %s" % (op, svec(w)))
+            c.steps.append((op, w))
+    c.kind = "hist-bandsparse"
+    return c
+
+
+def dense_int_matrix(rng, n, dens):
+    A = [[F(0)] * n for _ in range(n)]
+    for i in range(n):
+        for j in range(n):
+            if i == j or rng.random() < dens:
+                A[i][j] = F(rng.choice([-2, -1, 1, 1, 2, 3]))
+    return A
+
+
+def sparse_int_lp(rng, m, n, name):
+    """sparse integer LP (2-3 entries 0/+-1/2 per column), box bounds, planted feasible point: finite optimum"""
+    xs = [F(rng.randint(0, 3)) for _ in range(n)]
+    cols = [("x%d" % j, F(rng.randint(-4, 4)), F(0), F(rng.randint(3, 6))) for j in range(n)]
+    ent = [[] for _ in range(m)]
+    for j in range(n):
+        for i in rng.sample(range(m), rng.choice([2, 2, 3])):
+            ent[i].append((j, F(rng.choice([-1, 1, 1, 2]))))
+    rows = []
+    for i in range(m):
+        act = sum((v * xs[j] for j, v in ent[i]), F(0))
+        sn = rng.choice("LLGE")
+        rhs = act if sn == "E" else (act + rng.randint(0, 3) if sn == "L" else act - rng.randint(0, 3))
+        rows.append(("c%d" % i, sn, rhs, F(0), sorted(ent[i])))
+    return dict(name=name, max=rng.random() < 0.5, cols=cols, rows=rows)
+
+
+def public_big_cases(rng, T):
+    """a few sparse 60x90 integer LPs: solve, new objective, re-solve, bound change, re-solve; tableau after each"""
+    cases, meta = [], {}
+    for li in range(6 if T else 2):
+        lp = sparse_int_lp(rng, 60, 90, "big%d" % li)
+        nc = 90
+        cid = "T%d" % li
+        s = ["CASE " + cid, lp_block(lp), "PARAM 7 0", "SOLVE " + rng.choice(["PRIMAL", "DUAL"]), "ITCNT", "DUMP", "GETBASIS", "TABLEAU"]
+        for _ in range(6):
+            s.append("CHG obj %d %s" % (rng.randrange(nc), q(F(rng.randint(-5, 5)))))
+        s += ["SOLVE PRIMAL", "ITCNT", "DUMP", "GETBASIS", "TABLEAU"]
+        for _ in range(4):
+            s.append("CHG bound %d U %s" % (rng.randrange(nc), q(F(rng.randint(1, 2)))))
+        s += ["SOLVE DUAL", "ITCNT", "DUMP", "GETBASIS", "TABLEAU"]
+        cases.append((cid, "\n".join(s) + "\n"))
+        meta[cid] = lp
+    return cases, meta
+
+
+REPR_LIMIT = 16         # check_repr + model walk of the solves (Fac/Factor.v) on the dumped struct factor_work up to this dimension
+DUMP_LIMIT = 80         # the struct is dumped up to this dimension: every ILLfactor_update between two dumps is replayed by the extracted update
 INVERSE_LIMIT = 12      # the verified elimination decides singularity up to this dimension; beyond it certificates are used
 
 
-def judge_component(ck, c, toks, qlist, qmeta, hist):
+def judge_component(ck, c, toks, qlist, qmeta, hist, pybad, updq, updmeta):
     """replay the bookkeeping of case c against its output lines; append model queries.
-    One query per matrix state: the matrix, C's singularity claim for it (if any) and the solves made with it."""
-    ops, dumps, curd = [], [], None
+    One query per matrix state: the matrix, C's singularity claim for it (if any) and the solves made with it.
+    Every solve is first screened by an untrusted exact multiply-back in Python (pybad collects the failures: those states are
+    not sent through the full verified query, a single-row confirmation is sent instead).
+    Every ILLfactor_update with a dump before it gives one `upd` query (model update vs the library's next dump)."""
+    ops, curd = [], None
     for t in toks:
         if t[0] == "FDUMP":
             curd = [t]
@@ -319,10 +422,11 @@ def judge_component(ck, c, toks, qlist, qmeta, hist):
             if t[0] == "FDUMPEND":
                 ops.append(("FDUMPBLOCK", "\n".join(" ".join(x) for x in curd)))
                 curd = None
-        elif t[0] in ("FACTOR", "FTRAN", "BTRAN", "FUPDX", "FUPD"):
+        elif t[0] in ("FACTOR", "FTRAN", "BTRAN", "FUPDX", "FUPDS", "FUPD"):
             ops.append(t)
     it = iter(ops)
-    st = dict(cur=None, claim=None, what="", checks=[], idx=[], nq=0, dump=None)
+    st = dict(cur=None, claim=None, what="", checks=[], idx=[], nq=0, dump=None, bad=False, pend=None)
+    n0 = len(c.steps[0][1])
 
     def bump(k):
         hist[k] = hist.get(k, 0) + 1
@@ -331,7 +435,7 @@ def judge_component(ck, c, toks, qlist, qmeta, hist):
         """emit the query for the current matrix state"""
         mat, claim = st["cur"], st["claim"]
         if mat is None or (not st["checks"] and claim is None):
-            st["checks"], st["idx"], st["claim"] = [], [], None
+            st["checks"], st["idx"], st["claim"], st["bad"] = [], [], None, False
             return
         n = len(mat)
         qid = "%s.%d" % (c.cid, st["nq"])
@@ -348,13 +452,19 @@ def judge_component(ck, c, toks, qlist, qmeta, hist):
                     mode, extra = "Y", ["Y " + " ".join(q(t) for t in y)]
             else:
                 mode = "-"                  # claimed non-singular, large: judged through the solves only
+        if st["bad"]:
+            # a solve of this state fails the quick multiply-back: do not push (possibly gigantic) numbers through n^2 verified
+            # products; the failing equation is confirmed separately
+            bump("state-skipped/py-multiply-back-failed")
+            st["checks"], st["idx"], st["claim"], st["bad"] = [], [], None, False
+            return
         lines = ["Q %s mat %d %d %s" % (qid, n, len(st["checks"]), mode)]
         lines += ["R " + " ".join(q(x) for x in r) for r in mat] + extra
         for (kind, a, x) in st["checks"]:
             lines.append("%s %s | %s" % (kind, " ".join(q(t) for t in a), " ".join(x)))
         qlist.append("\n".join(lines))
         qmeta[qid] = (c, st["what"], claim, mode, st["idx"], [k for k, _, _ in st["checks"]])
-        if st["dump"] is not None:
+        if st["dump"] is not None and (n <= REPR_LIMIT or (getattr(c, "repr_first", False) and st["what"] == "FACTOR")):
             # the same solves through the extracted model of the representation (Fac/Factor.v) + check_repr
             rl = ["Q %s.r repr %d %d" % (qid, n, len(st["checks"])), st["dump"]]
             rl += ["R " + " ".join(q(x) for x in r) for r in mat]
@@ -362,10 +472,16 @@ def judge_component(ck, c, toks, qlist, qmeta, hist):
                 rl.append("%s %s | %s" % (kind, " ".join(q(t) for t in a), " ".join(x)))
             qlist.append("\n".join(rl))
             qmeta[qid + ".r"] = (c, st["what"], "repr", "repr", st["idx"], [k for k, _, _ in st["checks"]])
-        st["checks"], st["idx"], st["claim"] = [], [], None
+        st["checks"], st["idx"], st["claim"], st["bad"] = [], [], None, False
 
     def set_matrix(mat, claim, what):
         st["cur"], st["claim"], st["what"], st["dump"] = mat, claim, what, None
+
+    def screen(kind, a, x, si):
+        bad = py_solves_ok(st["cur"], kind, a, x)
+        if bad is not None:
+            st["bad"] = True
+            pybad.append((c, si, kind, [r[:] for r in st["cur"]], a, x, bad, st["what"]))
 
     valid = False
     try:
@@ -386,24 +502,40 @@ def judge_component(ck, c, toks, qlist, qmeta, hist):
                 t = next(it)
                 if valid and t[1] is not None:
                     st["dump"] = t[1]
+                    if st["pend"] is not None:
+                        # the dump right after an accepted update
+                        pd = st["pend"]
+                        st["pend"] = None
+                        uq = "%s.u%d" % (c.cid, pd["si"])
+                        updq.append("Q %s upd %d %d\n%s\nA %s\nS %s\nAFTER\n%s" % (uq, n0, pd["col"], pd["before"], " ".join(q(x) for x in pd["v"]), " ".join(pd["S"]), t[1]))
+                        updmeta[uq] = (c, pd["si"], "accepted", pd["rv"])
+                else:
+                    st["pend"] = None
             elif kind in ("FTRAN", "BTRAN"):
+                st["pend"] = None
                 t = next(it)
                 if not valid or t[1] == "NOFACTOR":
                     continue
                 if t[1] != "0":
                     ck.violation("solve_index_%s.txt" % c.cid, c.text(), "%s returned a sparse vector with %s index" % (kind, "an out-of-range" if t[1] == "1" else "a duplicate"), match=dict(kind="solve-index"))
                     continue
-                st["checks"].append(("FT" if kind == "FTRAN" else "BT", payload, t[2:]))
+                kk = "FT" if kind == "FTRAN" else "BT"
+                screen(kk, payload, t[2:], si)
+                st["checks"].append((kk, payload, t[2:]))
                 st["idx"].append(si)
             elif kind == "FUPD":
+                st["pend"] = None
                 col, v = payload
                 tx = next(it)
+                ts = next(it)
                 tu = next(it)
                 if not valid or tu[1] == "NOFACTOR":
                     continue
                 if tx[1] == "0":                # x = B_old^-1 v
+                    screen("FT", v, tx[2:], si)
                     st["checks"].append(("FT", v, tx[2:]))
                     st["idx"].append(si)
+                before = st["dump"]
                 flush()
                 old = st["cur"]
                 new = [r[:] for r in old]
@@ -411,7 +543,15 @@ def judge_component(ck, c, toks, qlist, qmeta, hist):
                     new[i][col] = v[i]
                 rv, refac = int(tu[1]), int(tu[2])
                 bump("update/rv=%d,refactor=%d" % (rv, refac))
+                if before is not None and ts[0] == "FUPDS" and not (refac and rv == 0):
+                    if rv == 0:
+                        st["pend"] = dict(si=si, col=col, v=v, S=ts[1:], before=before, rv=rv)
+                    elif rv in (10, 11):
+                        uq = "%s.u%d" % (c.cid, si)
+                        updq.append("Q %s upd %d %d\n%s\nA %s\nS %s\nFAIL %d" % (uq, n0, col, before, " ".join(q(x) for x in v), " ".join(ts[1:]), rv))
+                        updmeta[uq] = (c, si, "singular", rv)
                 if "REFACTOR" in tu:
+                    st["pend"] = None
                     k = tu.index("REFACTOR")
                     frv, fns = tu[k + 1], int(tu[k + 2]) if tu[k + 2].lstrip("-").isdigit() else -1
                     if frv != "0" or fns < 0:
@@ -486,7 +626,58 @@ def main():
                 lines.append(" ".join(t))
             qs_.append("\n".join(lines))
             want[qid] = (cid, bi, rows)
-    ans = model_queries(qs_, M)
+    # big sparse LPs with an edit history on one object: the ILP block in force at each TABLEAU is the last DUMP before it
+    bcases, bmeta = public_big_cases(rng, T)
+    _, bouts, bcr = run_cases("h_fac", bcases, per_case_timeout=300, asan=True)
+    scripts.update(dict(bcases))
+    meta.update(bmeta)
+    for cid, rc, err in bcr:
+        ck.violation("crash_%s.txt" % cid, scripts[cid] + "\n# rc=%s\n# %s" % (rc, err[-1500:]), "h_fac (ASan) crashed (rc %s) in tableau case %s" % (rc, cid), match=dict(kind="crash"))
+    for cid, toks in bouts.items():
+        cur, blk, bi, i = None, None, 0, 0
+        while i < len(toks):
+            t = toks[i]
+            if t[0] == "ILP":
+                blk = [t]
+                cur = blk
+            elif t[0] in ("C", "B") and blk is not None:
+                blk.append(t)
+            elif t[0] == "SOLVE":
+                bump("big-lp/solve-status=%s" % (t[3] if len(t) > 3 else "?"))
+            elif t[0] == "ITCNT":
+                bump("big-lp/iterations", int(t[6]) if len(t) > 6 and t[6].lstrip("-").isdigit() else 0)
+            elif t[0] == "BORDER":
+                rows = []
+                j = i + 1
+                while j + 1 < len(toks) and toks[j][0] == "BINV" and toks[j + 1][0] == "TROW":
+                    rows.append((toks[j], toks[j + 1]))
+                    j += 2
+                i = j - 1
+                if t[1] == "0" and cur is not None and rows:
+                    # a sample of the rows (the judgement of one row costs m^2 + m*(n+m) exact products)
+                    pick = sorted(rng.sample(range(len(rows)), min(len(rows), 60 if T else 12)))
+                    for i0 in pick:
+                        qid = "%s.%d.%d" % (cid, bi, i0)
+                        lines = ["Q %s tab noinv" % qid, "\n".join(" ".join(x) for x in cur), "ORD " + " ".join(t[2:])]
+                        # the driver expects m row pairs: the picked row is sent, the others are marked unavailable
+                        for k, (b, tr) in enumerate(rows):
+                            if k == i0:
+                                lines.append(" ".join(b)); lines.append(" ".join(tr))
+                            else:
+                                lines.append("BINV %d 1" % k); lines.append("TROW %d 1" % k)
+                        qs_.append("\n".join(lines))
+                        want[qid] = (cid, bi, [rows[i0]])
+                    bi += 1
+                else:
+                    bump("tableau/unavailable")
+            i += 1
+    ans, tmissing = budget_model_queries(qs_, M, 600 if T else 100, per_chunk=(200 if T else 60))
+    if tmissing:
+        bump("tableau/unanswered-within-budget", len(tmissing))
+        ck.violation("budget_%s.txt" % tmissing[0], scripts[want[tmissing[0]][0]], "%d of %d tableau judgements by the extracted checkers did not finish within the time budget: the rows returned could not be "
+                     "multiplied back by check_binv_row / check_tableau_row" % (len(tmissing), len(qs_)), no_input=True, match=dict(kind="model-budget"))
+        for qid in tmissing:
+            want.pop(qid, None)
     nrows_judged = 0
     for qid, (cid, bi, rows) in want.items():
         a = ans.get(qid)
@@ -498,6 +689,9 @@ def main():
         bump("tableau/blocks")
         ck.count(("tab", repr(lp["cols"]), repr(lp["rows"]), tuple(tuple(r[0]) for r in rows)))
         bad = []
+        if len(rows) == 1 and len(flags) > 2:
+            # big-LP query: one row was sent, the others were marked unavailable
+            flags = [f for f in flags if f != "E"]
         for i in range(len(rows)):
             fb, ft = flags[2 * i], flags[2 * i + 1]
             if fb == "E":
@@ -537,6 +731,16 @@ def main():
         c = component_static("s%d" % k, rng, A, fparams(rng), 12 if n <= 16 else 8)
         c.kind = kind
         comp.append(c)
+    # B2': dense integer matrices with a dense kernel of more than 25 rows (default DENSE_MIN / DENSE_FRACT), static and with updates
+    for k in range(60 if T else 6):
+        n = rng.randint(30, 40)
+        A = dense_int_matrix(rng, n, rng.choice([0.4, 0.7, 0.9]))
+        if k % 2:
+            c = component_static("d%d" % k, rng, A, [], 8)
+        else:
+            c = component_history("d%d" % k, rng, A, [], rng.randint(3, 6))
+        c.kind = "dense-int"
+        comp.append(c)
     # B3: update histories
     nhist = 3000 if T else 300
     for k in range(nhist):
@@ -553,6 +757,12 @@ def main():
         c = component_history("h%d" % k, rng, A, params, rng.randint(3, 30 if n <= 10 else 12))
         c.kind = "hist-" + kind
         comp.append(c)
+    # B3': sparse 0/+-1 histories of dimension 45..80: the sparse path of ILLfactor_update (serow_process) with exact cancellations
+    for k in range(400 if T else 40):
+        n = rng.choice([45, 52, 61, 64, 70, 80])
+        c = band_sparse_history("b%d" % k, rng, n, rng.randint(8, 16))
+        c.repr_first = k < (20 if T else 4)
+        comp.append(c)
     # group small cases into chunks per process
     byid = {c.cid: c for c in comp}
     ccases = [(c.cid, c.text()) for c in comp]
@@ -561,16 +771,60 @@ def main():
         ck.violation("crash_%s.txt" % cid, byid[cid].text() + "\n# rc=%s\n# %s" % (rc, err[-1500:]), "h_fac (ASan) crashed (rc %s) in factor case %s" % (rc, cid), match=dict(kind="crash"))
     print("# component harness %.1fs, %d cases" % (time.time() - t1, len(comp)), file=sys.stderr)
     t1 = time.time()
-    qlist, qmeta = [], {}
+    qlist, qmeta, pybad, updq, updmeta = [], {}, [], [], {}
     for c in comp:
         if c.cid in couts:
-            judge_component(ck, c, couts[c.cid], qlist, qmeta, hist)
-    cans = model_queries(qlist, M)
-    print("# component model %.1fs, %d queries" % (time.time() - t1, len(qlist)), file=sys.stderr)
+            judge_component(ck, c, couts[c.cid], qlist, qmeta, hist, pybad, updq, updmeta)
+    print("# component screening %.1fs, %d queries, %d update replays, %d solves fail the quick multiply-back" % (time.time() - t1, len(qlist), len(updq), len(pybad)), file=sys.stderr)
+    t1 = time.time()
+    BUDGET = 900 if T else 200
+    # (1) solves that fail the untrusted multiply-back: confirm ONE equation each with the verified checker (tiny queries, first)
+    rowq, rowmeta = [], {}
+    for k, (c, si, kind, mat, a, x, eq, what) in enumerate(pybad[:40]):
+        n = len(mat)
+        row = mat[eq] if kind == "FT" else [mat[i][eq] for i in range(n)]
+        rid = "pb%d" % k
+        rowq.append("Q %s row %d\nR %s\nX %s\nV %s" % (rid, n, " ".join(q(t) for t in row), " ".join(x), q(a[eq])))
+        rowmeta[rid] = (c, si, kind, eq, what, n)
+    rans, rmiss = budget_model_queries(rowq, M, 40, per_chunk=20, chunk_weight=1)
+    for rid, (c, si, kind, eq, what, n) in rowmeta.items():
+        a_ = rans.get(rid)
+        conf = "confirmed by the extracted checker" if a_ == ["0"] else ("NOT confirmed by the extracted checker (it accepts the row)" if a_ == ["1"] else "verified confirmation did not finish within its time limit")
+        bump("solve-wrong/" + ("confirmed" if a_ == ["0"] else "unconfirmed"))
+        if a_ == ["1"]:
+            ck.violation("screen_%s.txt" % rid, c.text(), "internal: the quick multiply-back and the extracted checker disagree on equation %d of step %d" % (eq, si), no_input=True)
+            continue
+        ck.violation("solve_%s_%d.txt" % (c.cid, si), c.text() + "# wrong result at step %d (%s) of the case: equation %d of the system is violated (%s)\n" % (si, c.steps[si][0], eq, conf),
+                     "%s through the LU factorization does not satisfy the system exactly (%dx%d, %s, step %d, %s; equation %d: %s)" %
+                     ("ftran" if kind == "FT" else "btran", n, n, getattr(c, "kind", "small"), si, what, eq, conf), match=dict(kind="solve-wrong"))
+    if len(pybad) > 40:
+        bump("solve-wrong/not-reported-individually", len(pybad) - 40)
+    # (2) the verified judgements, cheap queries first, under the budget
+    # update replays on dense / fractional matrices of dimension > 16 are expensive in the extracted arithmetic: a sample of them
+    cheap = [u for u in updq if int(u.split(None, 4)[3]) <= 16 or updmeta[u.split(None, 2)[1]][0].kind == "hist-bandsparse"]
+    costly = [u for u in updq if not (int(u.split(None, 4)[3]) <= 16 or updmeta[u.split(None, 2)[1]][0].kind == "hist-bandsparse")]
+    costly.sort(key=len)
+    keep = costly[:(600 if T else 50)] + costly[-(40 if T else 3):]
+    bump("update-replay/not-replayed(sampled-out)", len(costly) - len(set(keep)))
+    updq = cheap + list(dict.fromkeys(keep))
+    kept_ids = set(u.split(None, 2)[1] for u in updq)
+    updmeta = {k: v for k, v in updmeta.items() if k in kept_ids}
+    allq = qlist + updq
+    cans, missing = budget_model_queries(allq, M, BUDGET, per_chunk=(300 if T else 100))
+    print("# component model %.1fs, %d queries, %d unanswered" % (time.time() - t1, len(allq), len(missing)), file=sys.stderr)
+    if missing:
+        bump("model/unanswered-within-budget", len(missing))
+        m0 = missing[0]
+        c0 = (qmeta.get(m0) or updmeta.get(m0))[0]
+        ck.violation("budget_%s.txt" % m0, c0.text(), "%d of %d judgements by the extracted checkers (first: %s, %s) did not finish within the time budget of %d s: "
+                     "the correspondence h_fac <-> verified checkers (check_ftran / check_btran / check_repr / update) could not be established for them"
+                     % (len(missing), len(allq), m0, getattr(c0, "kind", "small"), BUDGET), no_input=not ck.violations, match=dict(kind="model-budget"))
     nsolve = 0
     nrepr = [0]
     for qid, (c, what, c_sing, mode, opidx, kinds) in qmeta.items():
         a = cans.get(qid)
+        if a is None and qid in missing:
+            continue
         if mode == "repr":
             n = len(c.steps[0][1])
             if not a or a[0] not in ("0", "1"):
@@ -619,15 +873,58 @@ def main():
                              "%s through the LU factorization does not satisfy the system exactly (%dx%d, %s, step %d)" % ("ftran" if k == "FT" else "btran", n, n, getattr(c, "kind", "small"), si),
                              match=dict(kind="solve-wrong"))
         if len(ck.cov["samples"]) < 6 and a[0] != "S" and flags:
-            ck.sample(dict(kind=getattr(c, "kind", "exhaustive-small"), n=n, script_head=c.lines[:6], checks=len(flags)))
+            ck.sample(dict(kind=getattr(c, "kind", "exhaustive-small"), n=n, script_head=[l[:160] for l in c.lines[:6]], checks=len(flags)))
+    # (3) the update replays: extracted update_spike / update on the dump before vs the library's next dump
+    nupd_ok = 0
+    for uq, (c, si, how, rv) in updmeta.items():
+        a = cans.get(uq)
+        if a is None and uq in missing:
+            continue
+        n = len(c.steps[0][1])
+        if not a or len(a) < 7 or a[0] not in ("0", "1"):
+            ck.violation("model_%s.txt" % uq, c.text(), "model driver gave no answer for update replay %s (%s)" % (uq, a), no_input=True)
+            continue
+        f1, f2, o1, f4, o2, f6, f7 = a[:7]
+        bump("update-replay/%s/n%s/struct_ok=%s,spike=%s,model=%s%s,same=%s,solves=%s,struct_ok_after=%s" % (how, "<=16" if n <= 16 else ("<=40" if n <= 40 else ">40"), f1, f2, o1, o2, f4, f6, f7))
+        head = c.text() + "# update at step %d (FUPD %d ..), library rv %d\n" % (si, c.steps[si][1][0], rv)
+        if f1 != "1" or f7 == "0":
+            ck.violation("struct_%s.txt" % uq, head, "the dumped factor_work violates the structural invariant struct_ok (permutations / triangular U / pivot first / row form = column form) %s the update at step %d (%dx%d)"
+                         % ("before" if f1 != "1" else "after", si, n, n), match=dict(kind="struct-wrong"))
+            continue
+        if f2 != "1":
+            ck.violation("corr_spike_%s.txt" % uq, head, "correspondence FTUpdate.spike vs the upd vector of mpq_ILLfactor_ftran_update broke (step %d, %dx%d)" % (si, n, n), no_input=True, match=dict(kind="corr-update"))
+            continue
+        if how == "accepted":
+            if o1 != "S" or o2 != "S":
+                ck.violation("upd_refused_%s.txt" % uq, head, "mpq_ILLfactor_update accepted a column replacement that the verified model refuses as singular (update_none_singular; step %d, %dx%d)" % (si, n, n),
+                             match=dict(kind="update-singular-accepted"))
+            elif f4 != "1" or f6 != "1":
+                ck.violation("corr_update_%s.txt" % uq, head, "correspondence FTUpdate.update vs mpq_ILLfactor_update broke: the library's factor_work after the update is not the one the extracted update computes "
+                             "from the dump before it (entries: %s, solves on unit vectors: %s; step %d, %dx%d; by update_preserves the model's result represents the new matrix)" % (f4, f6, si, n, n),
+                             match=dict(kind="corr-update"))
+            else:
+                nupd_ok += 1
+        else:
+            if o1 != "N" or o2 != "N":
+                ck.violation("upd_singular_%s.txt" % uq, head, "mpq_ILLfactor_update refused (rv %d) a column replacement that the verified model accepts (the new matrix is non-singular by update_some_iff_nonsingular; step %d, %dx%d)" % (rv, si, n, n),
+                             match=dict(kind="update-false-singular"))
+            else:
+                nupd_ok += 1
+    ck.cov["update_replays_agreeing"] = nupd_ok
     if not pr["ok"]:
         ck.violation("proof.txt", pr["log"], "proof obligation(s) of Properties_C13.v no longer check: %s" % pr["failed"], no_input=not ck.violations)
     ck.cov["rule"] = ("A: LPs (planted, random, degenerate, Beale, near-parallel; <= 9x11 quick) solved by mpq_QSopt_primal/dual under random pricing/scaling, also stopped at an iteration limit and resumed, "
-                      "then sequences of mpq_QSopt_pivotin_row/col; after each: basis order + every binv row + every tableau row judged by the extracted check_binv_row / check_tableau_row against the "
-                      "basis matrix assembled from the internal LP dump.  B: mpq_ILLfactor* driven directly: all 2x2 and all (thorough) / 5000 sampled 3x3 matrices over {-1,0,1,2}; structured matrices "
+                      "then sequences of mpq_QSopt_pivotin_row/col; sparse 60x90 integer LPs: solve, new objective, re-solve, bound changes, re-solve on one object; after each: basis order + every "
+                      "(big LPs: a sample of the) binv rows + tableau rows judged by the extracted check_binv_row / check_tableau_row against the basis matrix assembled from the internal LP dump.  "
+                      "B: mpq_ILLfactor* driven directly: all 2x2 and all (thorough) / 5000 sampled 3x3 matrices over {-1,0,1,2}; structured matrices "
                       "(permuted triangular, dense block, singletons, near-singular 2^-k, rank-deficient, sparse, dense, arrow; n <= 40 quick / 80 thorough; random DENSE_MIN, P, MAX_K, space multipliers); "
-                      "update histories (<= 30 column replacements: sparse/dense/unit columns, copies and combinations of columns, zero columns; small ETAMAX and eta space to force refactorization); "
-                      "after each factor/update ftran/btran of unit, sparse and dense vectors judged by extracted check_ftran/check_btran; singularity compared with the verified elimination. "
+                      "dense integer matrices 30..40 (dense kernel > 25 rows); update histories (<= 30 column replacements: sparse/dense/unit columns, copies and combinations of columns, zero columns; "
+                      "small ETAMAX and eta space to force refactorization); 0/+-1 band matrices of dimension 45..80 with 8-16 sparse replacements (sparse path of ILLfactor_update with exact cancellations); "
+                      "after each factor/update ftran/btran of unit, sparse and dense vectors judged by extracted check_ftran/check_btran; singularity compared with the verified elimination.  "
+                      "C: the struct factor_work is dumped after every factorization and update (n <= 80): extracted struct_ok on every dump, check_repr + model walk for n <= 16 (and the first dump of some large "
+                      "histories), and for every ILLfactor_update between two dumps the extracted update_spike (with the library's spike) / update (own spike) applied to the dump before: the result must equal the "
+                      "dump after (lines as pivot + set of entries, row etas as sets, permutations) and solve alike; refused updates (E_UPDATE_SINGULAR_*) must be refused by the model.  "
+                      "All model runs are under a wall-clock budget; every solve is first screened by an untrusted exact multiply-back, a failing equation is confirmed by the extracted checker.  "
                       "non-trivial = non-singular matrix with at least one judged solve, or a singularity verdict; distinct by script text")
     ck.cov["histogram"] = dict(sorted(hist.items()))
     ck.cov["tableau_rows_judged"] = nrows_judged
@@ -637,8 +934,9 @@ def main():
     ck.cov["exhaustive"] = bool(T)
     ck.cov["evaluations"] = len(cases) + len(comp)
     ck.cov["crashes_seen"] = [dict(case=c_, rc=rc) for c_, rc, e in crashes + ccr]
-    ck.cov["not_covered"] = ("pivot selection, space management and the update routine are explored, not proved; after a solve stopped at an iteration limit the library refuses "
-                             "tableau queries (no cache), so intermediate bases are observed through pivotin sequences and resumed solves only")
+    ck.cov["not_covered"] = ("pivot selection of ILLfactor (Markowitz / dense kernel) and the space management (eta space, refactor requests, E_UPDATE_NOSPACE) are explored, not proved; the sparse "
+                             "path of ILLfactor_update (serow_process) is tied to the proved dense-path model by values only; update replays on dense fractional matrices of dimension 17..40 are sampled; "
+                             "after a solve stopped at an iteration limit the library refuses tableau queries (no cache), so intermediate bases are observed through pivotin sequences and resumed solves only")
     ck.assumptions = ["Coq kernel; extraction (ExtrOcamlBasic) + OCaml compiler", "harness h_fac + text protocol", "GMP = exact rational arithmetic"]
     ck.finish(trusted_base=["coqc 8.16.1 kernel", "OCaml extraction (ExtrOcamlBasic only)", "harness h_fac.c + checks/C13.py + checks/fac_common.py"])
 
